@@ -3,7 +3,7 @@
 import glob, json, os, re
 ROOT = os.path.dirname(os.path.dirname(os.path.abspath(__file__)))
 rows = []
-for p in sorted(glob.glob(os.path.join(ROOT, "seeded", "*", "meta.json"))):
+for p in sorted(glob.glob(os.path.join(ROOT, "seeded", "C*", "meta.json"))):
     m = json.load(open(p))
     rows.append("| `seeded/%s` | %s | %s | %s | %s |" % (os.path.basename(os.path.dirname(p)), m["property"], m["change"], m["needs"], m["result"]))
 table = "| directory | prop | change | what it needs to manifest | result of the check |\n|---|---|---|---|---|\n" + "\n".join(rows)
